@@ -1,9 +1,137 @@
 import Lean.Data.Json
-/-! Line-protocol handler for property C19 (model side of the correspondence). -/
+import SpoxModel.Model.Subgraph
+import SpoxModel.Model.SubgraphSpec
+import SpoxModel.Generated.SubgraphSpecs
+import SpoxModel.Generated.CallbackSites
+/-! Line-protocol handler for C19: run one control-flow constructor call (spec *generated from
+    /repo*), followed by a list of later steps, on the model; report what every callback saw. -/
 namespace Drv.C19
-open Lean
+open Lean Subgraph
 
-/-- One request (a JSON value) in, one response (a JSON value) out. -/
-def handle (_req : Json) : Json := Json.mkObj [("error", "unimplemented")]
+def dimToJson : Dim → Json
+  | .n k => toJson k
+  | .s nm => Json.str nm
+  | .unk => Json.null
+
+partial def tyToJson : Ty → Json
+  | .tensor dt sh =>
+    Json.mkObj [("t", toJson dt),
+      ("s", match sh with | none => Json.null | some ds => Json.arr (ds.map dimToJson).toArray)]
+  | .seq e => Json.mkObj [("seq", tyToJson e)]
+  | .opt e => Json.mkObj [("opt", tyToJson e)]
+
+def parseDim (j : Json) : Except String Dim :=
+  match j with
+  | .null => .ok .unk
+  | .str s => .ok (.s s)
+  | _ => match j.getNat? with
+    | .ok k => .ok (.n k)
+    | .error e => .error e
+
+partial def parseTy (j : Json) : Except String Ty := do
+  match j.getObjVal? "seq" with
+  | .ok e => return .seq (← parseTy e)
+  | .error _ =>
+  match j.getObjVal? "opt" with
+  | .ok e => return .opt (← parseTy e)
+  | .error _ =>
+  let dt ← j.getObjValAs? Nat "t"
+  let s ← j.getObjVal? "s"
+  match s with
+  | .null => return .tensor dt none
+  | .arr ds => return .tensor dt (some (← ds.toList.mapM parseDim))
+  | _ => throw "bad shape"
+
+def parseOperand (j : Json) : Except String Operand :=
+  match j with
+  | .null => .ok none
+  | _ => (parseTy j).map some
+
+def objPairs (j : Json) : Except String (List (String × Json)) :=
+  match j with
+  | .obj kvs => .ok (kvs.toList)
+  | .null => .ok []
+  | _ => .error "object expected"
+
+def lookupD {α} (d : α) (xs : List (String × α)) (nm : String) : α :=
+  ((xs.find? (·.1 == nm)).map (·.2)).getD d
+
+def parseBeh (j : Json) : Except String (Nat × CbBehaviour) := do
+  let id ← j.getObjValAs? Nat "id"
+  let beh ← j.getObjValAs? String "beh"
+  let n := (j.getObjValAs? Nat "n").toOption.getD 0
+  match beh with
+  | "vars" => return (id, .returnsVars n)
+  | "notCallable" => return (id, .notCallable)
+  | "nonIterable" => return (id, .nonIterable)
+  | "hasNonVar" => return (id, .hasNonVar n)
+  | "raises" => return (id, .raises)
+  | _ => throw "bad behaviour"
+
+def parseStep (s : String) : Except String Step :=
+  match s with
+  | "build" => .ok .build
+  | "infer" => .ok .infer
+  | "valueProp" => .ok .valueProp
+  | "inspect" => .ok .inspect
+  | _ => .error "bad step"
+
+def errName : Err → String
+  | .typeError => "TypeError"
+  | .attributeError => "AttributeError"
+  | .other => "Other"
+
+def extra : List String :=
+  SubgraphSpec.extraSites Generated.CallbackSites.invokers Generated.CallbackSites.reconstructCallers
+    Generated.CallbackSites.constructorReaders Generated.CallbackSites.subgraphCallers
+    Generated.CallbackSites.opsetModules
+
+def findSpec (mod ctor : String) : Option CtorSpec :=
+  let defMod := ((Generated.SubgraphSpecs.resolves.find? (fun r => r.1 == mod && r.2.1 == ctor)).map
+    (·.2.2)).getD mod
+  (Generated.SubgraphSpecs.table.find? (fun e => e.1 == defMod && e.2.1 == ctor)).map (·.2.2)
+
+def eventJson (e : Event) : Json :=
+  Json.mkObj [("cb", toJson e.cb), ("args", toJson e.args),
+    ("types", Json.arr (e.types.map tyToJson).toArray)]
+
+def handle (req : Json) : Json :=
+  match (do
+    let mod ← req.getObjValAs? String "mod"
+    let ctor ← req.getObjValAs? String "ctor"
+    let spec ← match findSpec mod ctor with
+      | some s => pure s
+      | none => throw s!"no spec for {mod}.{ctor}"
+    let lists ← (← objPairs (req.getObjValD "lists")).mapM (fun (p : String × Json) => do
+      let arr ← p.2.getArr?
+      return (p.1, ← arr.toList.mapM parseOperand))
+    let singles ← (← objPairs (req.getObjValD "singles")).mapM (fun (p : String × Json) => do
+      return (p.1, ← parseOperand p.2))
+    let ints ← (← objPairs (req.getObjValD "ints")).mapM (fun (p : String × Json) => do
+      return (p.1, ← p.2.getInt?))
+    let cbl ← (← objPairs (req.getObjValD "cbs")).mapM (fun (p : String × Json) => do
+      return (p.1, ← parseBeh p.2))
+    let steps ← ((req.getObjValAs? (Array String) "steps").toOption.getD #[]).toList.mapM parseStep
+    let fresh0 := (req.getObjValAs? Nat "fresh").toOption.getD 0
+    let env : Env := ⟨lookupD [] lists, lookupD none singles, lookupD 0 ints⟩
+    let cbs : Callbacks := lookupD (999, .notCallable) cbl
+    -- `repeat`: the same constructor call made again with the very same callback objects
+    let reps := (req.getObjValAs? Nat "repeat").toOption.getD 1
+    let (res, w1) := (List.range reps).foldl
+      (fun (acc : Except Err Node × World) _ => construct spec env cbs acc.2)
+      ((.error .other : Except Err Node), (⟨[], fresh0⟩ : World))
+    let (resJ, w2) := match res with
+      | .ok node => (Json.mkObj [("ok", toJson node.outVariadic)], runSteps extra node steps w1)
+      | .error e => (Json.mkObj [("err", errName e)], w1)
+    let ids : List Nat := (cbl.map (fun (p : String × Nat × CbBehaviour) => p.2.1)).eraseDups
+    return Json.mkObj [
+      ("result", resJ),
+      ("events", Json.arr (w1.events.reverse.map eventJson).toArray),
+      ("counts", Json.mkObj (ids.map (fun i => (toString i, toJson (w2.count i))))),
+      ("countsAfterCtor", Json.mkObj (ids.map (fun i => (toString i, toJson (w1.count i))))),
+      ("order", toJson (spec.subgraphs.map (fun (p : String × ListExpr) => p.1))),
+      ("extraSites", toJson extra)]) with
+  | .ok j => j
+  | .error e => Json.mkObj [("error", e)]
 
 end Drv.C19
